@@ -1271,7 +1271,9 @@ func ownerGroup(fn string) string {
 		return "internal/api(curves)"
 	case strings.HasPrefix(fn, "internal/api.getSensor"):
 		return "internal/api(sensors)"
-	case strings.HasPrefix(fn, "internal/persistence.persistence."):
+	case strings.HasPrefix(fn, "internal/persistence."):
+		// whichever function of the package decodes the stored bytes (a method of the unexported type, or a
+		// helper it calls through the database library's transaction callback): the state is the decoded map
 		return "internal/persistence(loaded map)"
 	}
 	return ""
